@@ -977,6 +977,10 @@ func (g *gen) genTx(bi int) {
 		if r.Chance(0.05) {
 			s.To = []int{AcctLong, AcctShort}[r.Intn(2)]
 		}
+		if r.Chance(0.04) && bi >= 2 {
+			// an award to a module account's own address (the staked pool is where awards are minted)
+			s.To = []int{AcctPool, AcctPool, AcctDAO}[r.Intn(3)]
+		}
 		s.Amount = []string{"1", "1000", "999999", "1000000", "123456789", "0"}[r.Intn(6)]
 	case "burn":
 		s.Acct = g.pickAcct()
